@@ -80,6 +80,8 @@ def stage_coq(s):
         return "(SUnfold %s %s %s %s)" % (z(s.get("seed", 0)), f, fail_coq(s.get("fail")), b(s.get("try")))
     if k == "emit":
         return "(SEmit %d%%N %s %s %s)" % (s.get("freq", 0), f, fail_coq(s.get("fail")), b(s.get("try")))
+    if k == "stderr":
+        return "SStdErr"
     if k == "seq":
         return "(SSeq %s)" % vlib.zlist(s.get("xs") or [])
     if k == "throttle":
